@@ -108,7 +108,7 @@ ASSUME = [
     "which bytes a channel access copies is modelled by packed_dynamic_channel_reference::data_size (translated); on the real code an access past the "
     "allocation is detected by a guard page placed directly behind (mode 1) or before (mode 0, residue 0) the buffer, and by ASan",
     "pixel algorithms are exercised (fill_pixels, for_each_pixel, copy_pixels) but their access sets are not modelled here (C04)",
-    "copy construction / assignment control flow (which constructor or recreate path they take) is hand-modelled in the driver and tied by the correspondence only",
+    "allocate_and_copy = allocate_ + uninitialized_copy_pixels and swap(tmp) are hand-modelled (the assigned-to image becomes the temporary); tied by the correspondence only",
 ]
 
 def run(ctx, ops=None):
